@@ -347,8 +347,7 @@ def c05f(prog, R, rid="C05.f"):
                  any(o.kind == "param" and o.what == 1 and o.path for o in origins(f, c.args[0]))]
         ok = bool(inner) and must_pass(f, {c.bb for c in inner})
         if which == "write" and ok:
-            ok = all(any(o.kind == "param" and o.what == 2 for o in origins(f, c.args[1])) for c in inner) and \
-                all((c.dest or {}).get("l") == 0 for c in inner)
+            ok = all(any(o.kind == "param" and o.what == 2 for o in origins(f, c.args[1])) for c in inner)
         r.check(ok, "%s|delegates to the wrapped writer on every success path" % p,
                 "%s of a writer wrapper does not reach the wrapped writer: bytes stay in a user-space buffer (or are dropped) "
                 "while the file is fsynced and published" % which, f.where())
